@@ -115,6 +115,11 @@ fn panic_text(p: &(dyn std::any::Any + Send)) -> String {
 /// One AArch64-Linux installation through the trait path with the trampoline page scripted.
 /// Judges entry + trampoline with the A64 machine, restoration and mapping discipline.
 fn one_arm64(acc: &mut Acc, a: u64, tramp: Option<u64>, fake: u64, boolv: Option<bool>, backend: Backend, collect_words: bool) {
+    if !vaccess::has(backend) {
+        // the seam to this back-end does not compile against the mounted tree: nothing to explore
+        acc.tag("reduced:seam-unavailable:aarch64-backend");
+        return;
+    }
     acc.steps += 1;
     model64(tramp.map(|t| vec![venv::Answer::At(t)]).unwrap_or_default());
     let flush_check = collect_words;
@@ -329,6 +334,18 @@ fn mac_check(acc: &mut Acc, pc: u64, target: u64) {
     if pc == target {
         return; // a function is never its own trampoline
     }
+    #[cfg(not(feature = "seam_macenc"))]
+    {
+        let _ = (pc, target);
+        acc.tag("reduced:seam-unavailable:macos-entry-encoder");
+        return;
+    }
+    #[cfg(feature = "seam_macenc")]
+    mac_check_inner(acc, pc, target);
+}
+
+#[cfg(feature = "seam_macenc")]
+fn mac_check_inner(acc: &mut Acc, pc: u64, target: u64) {
     acc.steps += 1;
     let r = catch_unwind(|| vaccess::macos_entry_words(pc as usize, target as usize));
     let words = match r {
@@ -461,14 +478,14 @@ pub fn c15_exec(c: &Value) -> Value {
             }
         }
         "entry-far" => {
-            #[cfg(feature = "priv_access")]
+            #[cfg(feature = "priv_arm64")]
             {
                 acc.tag("priv-access");
                 for d in far_displacements() {
                     far_entry(&mut acc, a0, d);
                 }
             }
-            #[cfg(not(feature = "priv_access"))]
+            #[cfg(not(feature = "priv_arm64"))]
             acc.tag("reduced:no-priv-access");
         }
         "mac-encoder" => {
@@ -534,7 +551,7 @@ pub fn c15_exec(c: &Value) -> Value {
             for t in [tramp0, T64 + 0x40_0000, T64 - WIN + 0x2000, T64 + WIN - 0x2000] {
                 one_arm64(&mut acc, a0, Some(t), 0x0000_1234_5678_9ABC, None, Backend::Arm64MacEncoder, true);
             }
-            #[cfg(feature = "priv_access")]
+            #[cfg(feature = "priv_macsim")]
             for d in [0x1000_0000i64, -0x1000_0000, 0x7FFF_F000, -0x7FFF_F000, 0x4000_0000] {
                 far_entry_mac(&mut acc, a0, d);
             }
@@ -544,7 +561,7 @@ pub fn c15_exec(c: &Value) -> Value {
     acc.finish()
 }
 
-#[cfg(feature = "priv_access")]
+#[cfg(feature = "priv_arm64")]
 fn far_displacements() -> Vec<i64> {
     let w = WIN as i64;
     let mut v = vec![];
@@ -563,7 +580,7 @@ fn far_displacements() -> Vec<i64> {
 
 /// apply_branch_patch(src, jit at src+d) directly: out-of-range displacements must be refused
 /// (panic, entry untouched); in-range ones must decode to a branch to exactly src+d.
-#[cfg(feature = "priv_access")]
+#[cfg(feature = "priv_arm64")]
 fn far_entry(acc: &mut Acc, a: u64, d: i64) {
     acc.steps += 1;
     prep_target64(a);
@@ -597,7 +614,7 @@ fn far_entry(acc: &mut Acc, a: u64, d: i64) {
     venv::with(|e| e.errors.clear());
 }
 
-#[cfg(feature = "priv_access")]
+#[cfg(feature = "priv_macsim")]
 fn far_entry_mac(acc: &mut Acc, a: u64, d: i64) {
     acc.steps += 1;
     prep_target64(a);
@@ -666,6 +683,10 @@ fn mem32(a: u32, n: usize) -> Option<Vec<u8>> {
 
 pub fn c16_exec(c: &Value) -> Value {
     let mut acc = Acc::new();
+    if !vaccess::has(Backend::Arm32) {
+        acc.tag("reduced:seam-unavailable:arm32-backend");
+        return acc.finish();
+    }
     let base = BASES32[c["base"].as_u64().unwrap() as usize] as u64;
     let ecase = c["case"].as_str().unwrap();
     let dense = c["dense"].as_bool().unwrap();
@@ -952,6 +973,10 @@ pub fn c11_exec(c: &Value) -> Value {
     let base = c["base"].as_u64().unwrap();
     let a = base + c["off"].as_u64().unwrap();
     let s = Scan { backend: if is_arm { Backend::Arm64Linux } else { Backend::Amd64 }, is_arm, ps, a };
+    if !vaccess::has(s.backend) {
+        acc.tag("reduced:seam-unavailable:aarch64-backend");
+        return acc.finish();
+    }
     // target: map generously so that a model page (up to 64 KiB) around the entry is real memory
     let tpage = a & !(ps - 1);
     let span = 2 * ps.max(0x2000);
